@@ -559,7 +559,7 @@ def oracle_batch(ctx):
                 if kind != "same":
                     changed[n] = kind
             for fname, fn in (("compute_inp_hashes", compute_inp_hashes), ("compute_out_hashes", compute_out_hashes)):
-                if fname == "compute_inp_hashes" or not any(k == "vanish" for k in changed.values()):
+                if True:  # a vanished output is a change of that output too (it goes back to PLANNED)
                     try:
                         res = fn(dict(old), threading.Event())
                     except Exception as exc:  # noqa: BLE001
